@@ -652,6 +652,8 @@ class Interp:
             return 1 if v else 0
         if not isinstance(v, En):
             raise Unsupported('discriminant of %r' % (type(v).__name__,))
+        if v.short == 'Ordering' and v.var in ('Less', 'Equal', 'Greater'):
+            return {'Less': 255, 'Equal': 0, 'Greater': 1}[v.var]     # i8 discriminants -1, 0, 1 (printed as u8)
         for t in (v.ty, ty):
             if t:
                 i = self.L.variant_index(t, v.var, crate)
@@ -948,6 +950,12 @@ class Interp:
         f = self.resolve_impl(self_ty, trait, method, args, crate)
         if f is not None:
             return self.call_fn(f, args)
+        # 5. a tuple-variant / tuple-struct constructor used as a function value
+        segs = full.split('::')
+        if len(segs) >= 2 and not callee.startswith('<'):
+            k = self.L._resolve('::'.join(segs[:-1]), 'enum', crate)
+            if k is not None and any(n == segs[-1] for n, _ in self.L.enums[k]):
+                return En(qual(k), segs[-1], list(args))
         raise Unsupported('no model for callee: %s   (in %s)' % (callee[:200], caller.name if caller else '?'))
 
     def resolve_impl(self, self_ty, trait, method, args, crate):
